@@ -448,6 +448,7 @@ Proof.
   destruct (_ || _); [intro E; injection E as <- _; apply frame_refl|].
   destruct (8 <=? step n); [intro E; injection E as <- _; apply frame_refl|].
   destruct (_ && _); [intro E; injection E as <- _; apply frame_refl|].
+  destruct ((p_total p <? 0) || (22020096 <? p_total p)); [intro E; injection E as <- _; apply frame_refl|].
   destruct (proposer (vals n)) as [[[a|] vs']| |]; try discriminate.
   destruct (negb _); [intro E; injection E as <- _; apply frame_set_vals|].
   destruct (new_pset _ _) as [ps| |]; try discriminate. intro E. injection E as <- _.
